@@ -1,27 +1,67 @@
-import Clover.Probe.PlannerProofs
-import Clover.Probe.Scan
-import Clover.Probe.ScanRev
-import Clover.Probe.EntryBridge
-/-! # C02 — index transparency (planner soundness and scan exactness) -/
+import Clover.Props.C17
+import Clover.Proofs.PlannerModel
+/-! # C02 — index transparency (planner soundness + scan exactness, on the model's definitions) -/
 namespace CV.Props.C02
-open Pl
+open CV OC
 
-variable {V : Type} (O : VOrd V)
+variable (likeFn : LikeFn) (fnFam : FnFam)
 
-/-- Planner soundness, for every criteria tree: a document that satisfies the criteria lies inside
-    the range the planner derives for any field (after negation push-down, with no range from a
-    disjunction, a residual negation, a field reference or a nil ordering literal) — so an index
-    range scan never drops a matching document. -/
-theorem planner_sound (d : Doc V) (f : Field) (c : Crit V) (h : sat O d c = true) :
-    covers O (fieldRange O f (flatten c)) (d.get f) = true := Pl.planner_sound O d f c h
+/-- Planner soundness, for every criteria tree (any depth, every operator, literal / nil /
+    field-reference operands): a document satisfying the criteria passes the bound tests of the
+    range derived for ANY field by `fieldRange ∘ flatten` — the functions the plan is built with. -/
+theorem planner_sound (d : Doc) (hd : AllNumKV numOK d) (c : Crit) (hc : CritOK c) (f : Bytes)
+    (h : sat likeFn fnFam d c = true) :
+    ∀ r, fieldRange f (flatten c) = some r → Pl.inScan vord r.abs (d.get f) = true :=
+  planner_sound_model likeFn fnFam d hd c hc f h
 
-/-- The forward range scan (seek, skip an excluded start, stop test) over the sorted entries of
-    an index yields exactly the entries whose value is in range, in order. -/
-theorem scan_forward_exact (r : Range V) (l : List (Entry V)) (hs : l.Pairwise (leE O)) :
-    scanFwd O r l = l.filter (fun e => inScan O r e.1) := Pl.scanFwd_exact O r l hs
+/-- The single index query of a plan scans `fieldRange f (flatten c)` for the selected field. -/
+theorem indexQuery_range (indexed : List Bytes) (c : Crit) (f : Bytes) (r : Range)
+    (h : indexQuery indexed (some c) = some (f, r)) : fieldRange f (flatten c) = some r := by
+  unfold indexQuery at h
+  simp only at h
+  split at h
+  · simp at h
+  · split at h
+    · simp at h
+    · rename_i g rest heq
+      cases hfr : fieldRange g (flatten c) with
+      | none => simp [hfr] at h
+      | some r' =>
+        simp only [hfr, Option.map_some, Option.some.injEq, Prod.mk.injEq] at h
+        rw [← h.1, ← h.2]; exact hfr
 
-/-- The reverse range scan yields the same entries reversed. -/
-theorem scan_reverse_exact (r : Range V) (l : List (Entry V)) (hs : l.Pairwise (leE O)) :
-    scanRev O r l = (l.filter (fun e => inScan O r e.1)).reverse := Pl.scanRev_exact O r l hs
+/-- Index transparency at the level of candidates: whatever the store around the index, if the
+    plan chose the index on `f` with range `r`, every document that satisfies the criteria and
+    has an entry in that index (under its current value, as C06 guarantees) is among the ids the
+    range scan hands to the filter — in either direction. Since the filter is re-applied to every
+    candidate (`iterateDocs`), the index can neither drop nor add a document. -/
+theorem index_candidates_complete (c0 fld : Bytes) (pre post : KVS) (E : List IEntry) (indexed : List Bytes)
+    (crit : Crit) (r : Range) (rev : Bool) (ctx : Ctx) (d : Doc) (id : Bytes)
+    (hq : indexQuery indexed (some crit) = some (fld, r))
+    (hd : AllNumKV numOK d) (hc : CritOK crit) (hsat : sat likeFn fnFam d crit = true)
+    (hentry : (d.get fld, id) ∈ E)
+    (hstore : ctx.work = pre ++ (block c0 fld E ++ post))
+    (hpre : ∀ e ∈ pre, ∀ t, lexLt e.1 (Keys.idxPrefix c0 fld ++ t) = true)
+    (hpost : ∀ e ∈ post, ∀ t, lexLt (Keys.idxPrefix c0 fld ++ t) e.1 = true)
+    (hE : ∀ e ∈ E, Dom numOK e.1 ∧ IdOK e.2) (hrs : Dom numOK r.start) (hre : Dom numOK r.stop)
+    (hsorted : E.Pairwise (Pl.leE vord)) :
+    ∃ ctx' ids, (iterateRange c0 fld r rev collectAll []) noFault ctx = (.ok ids, ctx') ∧ id ∈ ids := by
+  obtain ⟨ctx', ids, hrun, hids⟩ := C17.range_scan_exact c0 fld pre post E r rev ctx hstore hpre hpost hE hrs hre hsorted
+  refine ⟨ctx', ids, hrun, ?_⟩
+  have hin : Pl.inScan vord r.abs (d.get fld) = true :=
+    planner_sound likeFn fnFam d hd crit hc fld hsat r (indexQuery_range indexed crit fld r hq)
+  have hmem : (d.get fld, id) ∈ E.filter (C17.scanned r) := by
+    simp [List.mem_filter, hentry, C17.scanned, hin]
+  have : id ∈ ids.reverse := by
+    rw [hids]
+    cases rev with
+    | false => simp only [Bool.false_eq_true, if_false]; exact List.mem_map.2 ⟨_, hmem, rfl⟩
+    | true => simp only [if_true]; exact List.mem_map.2 ⟨_, List.mem_reverse.2 hmem, rfl⟩
+  exact List.mem_reverse.1 this
+
+/-- The abstract statements the model-level ones are instances of (kept for reference). -/
+theorem planner_sound_abstract {V : Type} (O : Pl.VOrd V) (d : Pl.Doc V) (f : Pl.Field) (c : Pl.Crit V)
+    (h : Pl.sat O d c = true) : Pl.covers O (Pl.fieldRange O f (Pl.flatten c)) (d.get f) = true :=
+  Pl.planner_sound O d f c h
 
 end CV.Props.C02
